@@ -696,3 +696,34 @@ def resolve_select(p, before):
             return p
         p = sp[1] if br.val else sp[2]
     return p
+
+
+def null_store(it, suffix):
+    """does trace item `it` store null into a location whose path ends in `suffix` (x = nullptr; x = {}; std::exchange(x, nullptr); x.reset())?"""
+    if it.k == 'write' and (it.get('path') or '').endswith(suffix) and (it.get('const') == 0 or (it.get('rhs') or '') in NULLS):
+        return True
+    if it.k == 'call':
+        c = norm(it.get('callee') or '')
+        a = it.get('args') or []
+        if c.endswith('operator=') and (it.get('recv') or '').endswith(suffix) and a and ((a[0].get('path') or '') in NULLS or a[0].get('const') == 0):
+            return True
+        if c == 'std::exchange' and a and (a[0].get('path') or '').endswith(suffix) and len(a) > 1 and ((a[1].get('path') or '') in NULLS or a[1].get('const') == 0):
+            return True
+        if c.endswith('::reset') and (it.get('recv') or '').endswith(suffix) and not a:
+            return True
+    return False
+
+
+def helper_bodies(db, f, depth=3):
+    """f and the helpers of its class it reaches (transitively, bounded): the code a rule about f has to look at when a maintainer has split f up"""
+    out = [f]; seen = {(f['key'], f.get('inst'))}; work = [(f, 0)]
+    while work:
+        g, d = work.pop()
+        if d >= depth:
+            continue
+        for e in g.events():
+            if e.k in ('call', 'construct') and e.get('callee_key'):
+                c = db.resolve(g, e['callee_key'], e.get('callee_inst'))
+                if c is not None and (c['key'], c.get('inst')) not in seen and is_helper(db, g, c):
+                    seen.add((c['key'], c.get('inst'))); out.append(c); work.append((c, d + 1))
+    return out
